@@ -232,8 +232,9 @@ def run(rep, tier, seed):
              "`foreign` (always an unexpected kind) on token-level grammars; non-trivial = runs that returned Ok/Err",
         outcome_kinds=outcome_kinds, tables_validated=nval, tables_failing_reduce_acyclic=acyclic_false,
         custom_lexer_runs=n_custom, custom_lexer_runs_equal_to_model=n_custom_corr, samples=samples,
-        partial="termination is not proved: reduce_acyclic_b is a sufficient condition evaluated per table; hangs are "
-                "detected by the watchdog; stack overflow / memory exhaustion cannot be exhibited by the model")
+        partial="termination is proved for the token-level model in full-parse mode under reduce_acyclic_b (evaluated per "
+                "table); partial parsing, custom lexers and GLR are observed by the watchdog; stack overflow / memory "
+                "exhaustion cannot be exhibited by the model")
     rep.assumptions = ["watchdog limit 3 s per input stands for 'bounded time'",
                        "lr_no_panic is proved for the token-level model with the default lexer; the byte-level slicing "
                        "and the custom-lexer clause are decided by correspondence and real runs"]
